@@ -280,6 +280,14 @@ def _uses(ast, names):
 
 
 def nonfinite_literal(ast):
+    if ast[0] not in ("lit", "litexpr", "loc") and not E.has_ref(ast):
+        # a reference-free sub-term is folded by Python before the library sees it (1e16 * 1e308 -> inf)
+        try:
+            v = E.mirror(ast, {})
+            if isinstance(v, float) and (v != v or v in (float("inf"), float("-inf"))):
+                return True
+        except Exception:
+            pass
     if ast[0] == "lit":
         v = E.dec(ast[1])
         return isinstance(v, float) and (v != v or v in (float("inf"), float("-inf")))
